@@ -12,7 +12,11 @@ RULE = ('family cluster (L3): generated clusters (2-4 instances) with generated 
         "from the Master's own status API just before the invalidation, the expected action per application is "
         'computed from the rules model with the stated precedence and promotion, and compared with what the Master '
         'plans afterwards (entry points of its Starter / Stopper) once the cluster is settled; handler entry points '
-        'wrapped on every instance (Master only); family handler (L1): see the second plan family; non-trivial = at '
+        'wrapped on every instance (Master only); family loss-during-stop: the Master is asked to stop an '
+        'application whose processes ignore SIGTERM (multi-level stop sequence lasting longer than the failure '
+        'detection) and an instance is lost meanwhile - the processes that have a stop command towards the lost '
+        'instance in the Stopper of the Master are left to that job (no start planned by the Master afterwards); '
+        'family handler (L1): see the second plan family; non-trivial = at '
         'least one loss acknowledged by the Master with lost processes; distinct = distinct (topology, strategies, '
         'distributions, actions) tuples')
 ASSUMPTIONS = ['evaluated only when the cluster settles (OPERATION everywhere without jobs) with the same Master',
@@ -22,12 +26,12 @@ ASSUMPTIONS = ['evaluated only when the cluster settles (OPERATION everywhere wi
 FLOORS = {'quick': {'losses_acknowledged_by_master': 150, 'applications_evaluated_after_loss': 100,
                     'losses_acknowledged_while_jobs_in_progress': 20, 'handler_calls': 150,
                     'handler_set_comparisons': 2000, 'handler_dispatches_checked': 150, 'handler_promotions': 30,
-                    'supvisors_strategy_crashes_evaluated': 4,
+                    'supvisors_strategy_crashes_evaluated': 4, 'lost_processes_with_a_stop_job_checked': 15,
                     'handler_superseded': 200},
           'thorough': {'losses_acknowledged_by_master': 3000, 'applications_evaluated_after_loss': 2000,
                        'losses_acknowledged_while_jobs_in_progress': 400, 'handler_calls': 3000,
                        'handler_set_comparisons': 40000, 'handler_dispatches_checked': 3000,
-                       'supvisors_strategy_crashes_evaluated': 80,
+                       'supvisors_strategy_crashes_evaluated': 80, 'lost_processes_with_a_stop_job_checked': 250,
                        'handler_promotions': 600, 'handler_superseded': 4000}}
 COUNT = {'quick': 640, 'thorough': 12000}
 BUDGET_S = {'quick': 55, 'thorough': 540}
@@ -41,6 +45,16 @@ KNOBS = {'n_min': 2, 'n_max': 4, 'keep_master': True,
          'n_actions': [1, 2, 3, 4, 5], 'fence': 'false', 'early_p': 0.1, 'gaps': [0.0, 0.05, 0.5, 2.0, 2.0, 5.0, 12.0]}
 
 
+# a third family: an instance is lost while the Master is stopping an application (slow, multi-level stop sequences):
+# the processes that still have a stop command planned towards the lost instance are left to that job
+STOP_KNOBS = {'n_min': 3, 'n_max': 4, 'keep_master': True,
+              'apps': {'n_apps': (1, 2), 'n_progs': (2, 4), 'seq_max': 3, 'startsecs': (0, 2), 'stopwaitsecs': (10, 25),
+                       'managed_p': 1.0, 'autorestart': ('false',), 'identifiers_p': 0.0},
+              'behaviours': ['stubborn', 'stubborn', 'stubborn', 'slow_stop', 'normal'],
+              'actions': ['stop_application'], 'then': ['crash'], 'n_actions': [1], 'fence': 'false', 'early_p': 0.0,
+              'gaps': [0.0, 0.3, 1.0, 2.5, 4.0], 'on_master_p': 0.8}
+STOP_CASES = {'quick': 200, 'thorough': 3000}
+
 HANDLER_CASES = {'quick': 160, 'thorough': 3000}
 
 
@@ -48,6 +62,7 @@ def plan(tier, seed):
     # two families: end-to-end losses in a cluster (L3), histories fed to the real handler (L1)
     cases = [{'seed': seed * 1000003 + i, 'family': 'cluster'} for i in range(COUNT[tier])]
     cases += [{'seed': seed * 1000003 + 500000 + i, 'family': 'handler'} for i in range(HANDLER_CASES[tier])]
+    cases += [{'seed': seed * 1000003 + 800000 + i, 'family': 'loss-during-stop'} for i in range(STOP_CASES[tier])]
     return cases
 
 
@@ -56,7 +71,7 @@ def run_case(case):
         return run_handler_case(case)
     tracker = Tracker()
     mon = RunningFailureMonitor(tracker)
-    run = Run(case, KNOBS, [tracker, mon])
+    run = Run(case, STOP_KNOBS if case.get('family') == 'loss-during-stop' else KNOBS, [tracker, mon])
     violations = run.execute()
     nontrivial = mon.counters.get('lost_processes', 0) > 0
     return {'violations': violations, 'counters': run.counters,
